@@ -27,7 +27,7 @@ ASSUMPTIONS = [
     "only iteration starts observable through the leaf payloads are judged (the engine's internal iterables are not hooked)",
     "reference model vmon/model.py for the row content",
 ]
-MIN_OBS = {"lazy_only_programs": 300, "eager_programs": 300, "passes_checked": 2000, "leaf_iteration_starts_observed": 2000}
+MIN_OBS = {"second_executes_checked": 500, "lazy_only_programs": 300, "eager_programs": 300, "passes_checked": 2000, "leaf_iteration_starts_observed": 2000}
 EAGER = ("sort", "dedup", "mat")
 
 
@@ -100,6 +100,25 @@ def occurrences(rel, under_eager=False):
     return out
 
 
+def occurrences_outside_cached_materializations(rel):
+    """Leaf name -> number of occurrences that a *second* execute()+pass may touch again: everything
+    except what lies below a Materialization that had to consume its input (its rows are cached on
+    the node after the first execute)."""
+    import lsst.daf.relation as R
+    from .. import interp
+
+    out = collections.defaultdict(int)
+    if isinstance(rel, R.LeafRelation):
+        out[rel.name] += 1
+        return out
+    if isinstance(rel, R.Materialization) and consumes_at_execute(rel):
+        return out
+    for k in interp.children(rel):
+        for name, n in occurrences_outside_cached_materializations(k).items():
+            out[name] += n
+    return out
+
+
 def run_case(case):
     out = {"counters": {}, "violations": []}
     c = out["counters"]
@@ -162,6 +181,22 @@ def run_case(case):
             if n > lazy:
                 kind = "pass_started_more_than_one_iteration_per_occurrence" if not eager else "pass_reiterated_input_of_eager_operation"
                 out["violations"].append({"kind": kind, "detail": f"{label}: pass {i + 1} started {n} iterations of {name} (lazy occurrences {lazy}, below eager {eager}); tree {short(rel, 300)}"})
+    # ---- a second execute(): cached materializations must not touch their input again
+    occ2 = occurrences_outside_cached_materializations(rel)
+    try:
+        again = names_rows(rel.engine.execute(rel))
+    except Exception as exc:  # noqa: BLE001
+        out["violations"].append({"kind": "second_execute_raised", "detail": f"{label}: {exc_str(exc)}"})
+        return out
+    cur = starts()
+    d2 = delta(prev, cur)
+    prev = cur
+    c["second_executes_checked"] = 1
+    for name, n in d2.items():
+        if n > occ2.get(name, 0):
+            out["violations"].append({"kind": "second_execute_reevaluated_materialized_input", "detail": f"{label}: a second execute()+pass started {n} iterations of {name}, at most {occ2.get(name, 0)} allowed (the rest lies below a materialization whose rows are cached); tree {short(rel, 300)}"})
+    if again != passes[0]:
+        out["violations"].append({"kind": "second_execute_differs", "detail": f"{label}: {short(again, 200)} vs {short(passes[0], 200)}"})
     if passes[0] != want.rows:
         out["violations"].append({"kind": "rows_differ", "detail": f"{label}: {short(passes[0], 250)} vs {short(want.rows, 250)}"})
     if passes[1] != passes[0] or passes[2] != passes[0]:
